@@ -145,6 +145,36 @@ def obligations(tier, seed):
                               wrappers=[w], inputs=[(ct, 'a'), (ct, 'b')], body=body,
                               contract='forall |a|,|b| <= %d: %s of %s_pt(a) and %s_qty(b) is the point at absolute position a*u1 + o1 %s b*u2' % (X, nm, s, t, sign),
                               functions_under_contract=(fn, 'au::detail::borrow_origin')))
+    # ---- two-point operations with DIFFERENT reps: each operand must be widened to the common rep before it is scaled to the common point unit
+    mixed = [('C', 'mK', 'u32', 'u64'), ('K', 'mK', 'i32', 'i64'), ('X2', 'C', 'i32', 'i64'), ('mK', 'K', 'i64', 'i32')]
+    if tier == 'thorough': mixed += [('F', 'C', 'i16', 'i64'), ('X1', 'X5', 'u16', 'u64'), ('C', 'X3', 'u8', 'u32')]
+    for (s1, t1, r1, r2) in mixed:
+        c1, c2 = G.ctype(r1), G.ctype(r2)
+        CR = G.common(r1, r2); cc = G.ctype(CR)
+        tag = '%s_%s_%s_%s' % (s1, t1, r1, r2)
+        p1 = 'au::make_quantity_point<%s>(a)' % PT[s1]['ty']; p2 = 'au::make_quantity_point<%s>(b)' % PT[t1]['ty']
+        P1 = '((i128)a * %s + %s)' % (G.lit(int(PT[s1]['u'] * FINE)), G.lit(int(PT[s1]['o'] * FINE)))
+        P2 = '((i128)b * %s + %s)' % (G.lit(int(PT[t1]['u'] * FINE)), G.lit(int(PT[t1]['o'] * FINE)))
+        # the narrow operand ranges over its whole rep (or 2^32 for a 64-bit one), the wide one over +-10^9
+        rng = lambda v, r: '1' if G.REPS[r]['bits'] <= 32 else '(%s >= %s && %s <= 1000000000)' % (v, '0' if not G.REPS[r]['signed'] else '-1000000000', v)
+        pre_c = '%s && %s' % (rng('a', r1), rng('b', r2))
+        for n, op in (('lt', '<'), ('eq', '=='), ('ge', '>=')):
+            w = Wrapper('w_pm%s_%s' % (n, tag), 'bool', [(c1, 'a'), (c2, 'b')], 'return %s %s %s;' % (p1, op, p2))
+            body = '\n  ASSUME(%s);\n  CHECK(%s(a, b) == (%s %s %s), "%s-orders-points-by-absolute-position");\n' % (pre_c, w.name, P1, op, P2, n)
+            obs.append(Ob(id='C09.cmp-mixedrep.%s.%s' % (n, tag), prop='C09', group='C09.ppm.%s' % tag, prelude=prelude(s1, t1), wrappers=[w], inputs=[(c1, 'a'), (c2, 'b')], body=body,
+                          contract='forall a:%s (whole range), b:%s (|b| <= 10^9): (%s_pt(a) %s %s_pt(b)) == exact comparison of absolute positions; the narrow operand is widened to %s first' % (c1, c2, s1, op, t1, cc),
+                          functions_under_contract=('au::operator%s(QuantityPoint<U1,R1>, QuantityPoint<U2,R2>)' % op, 'au::detail::using_common_point_unit')))
+        wd = Wrapper('w_pmdiff_' + tag, cc, [(c1, 'a'), (c2, 'b')], 'return (%s - %s).coerce_in(%s{});' % (p1, p2, fine_ty))
+        nonneg = ' && %s >= %s' % (P1, P2) if not G.REPS[CR]['signed'] else ''
+        body = '''
+  ASSUME(%s%s);
+  %s d = %s(a, b);
+  CHECK((i128)d == %s - %s, "point-minus-point-is-the-exact-displacement");
+''' % (pre_c, nonneg, cc, wd.name, P1, P2)
+        obs.append(Ob(id='C09.diff-mixedrep.%s' % tag, prop='C09', group='C09.ppm.%s' % tag, prelude=prelude(s1, t1) + '\n//--\n' + fine_pre, wrappers=[wd],
+                      inputs=[(c1, 'a'), (c2, 'b')], body=body,
+                      contract='forall a:%s (whole range), b:%s bounded: (%s_pt(a) - %s_pt(b)) in 1/%d K is the exact displacement (computed in the common rep %s)' % (c1, c2, s1, t1, FINE, cc),
+                      functions_under_contract=('au::operator-(QuantityPoint<U1,R1>, QuantityPoint<U2,R2>)',)))
     # ---- the letter of the property at one call site (known finding KF-C09-1)
     ct = 'int32_t'
     w = Wrapper('w_pt_letter_F_mK_i32', ct, [(ct, 'x')], 'return au::make_quantity_point<au::Fahrenheit>(x).coerce_in(au::Milli<au::Kelvins>{});')
